@@ -176,9 +176,59 @@ Fixpoint anns_eqb (a b : list ann) : bool :=
   | _, _ => false
   end.
 
+(** * SELECT CASE (MultiConditional)
+
+    A source-level SELECT CASE is encoded in the MiniF core as the IF / ELSE IF chain that is its
+    semantics ([selector == value], first match wins, CASE DEFAULT last).  The conditions of the chain
+    carry a tag that changes neither their value nor their symbols: [EAnd [ELog true; c]] for the first
+    link (the SELECT node itself), [EAnd [ELog true; ELog true; c]] for the following links, which are not
+    nodes of Loki's IR.  The sets of the first link are those of [visit_MultiConditional]
+    ([select_du], proved equal as sets in proofs/P_C26_sel.v) and the bodies receive the same live set. *)
+Definition sel_head (c : expr) : expr := EAnd [ELog true; c].
+Definition sel_cont (c : expr) : expr := EAnd [ELog true; ELog true; c].
+Definition is_sel_cont (c : expr) : bool :=
+  match c with EAnd [ELog true; ELog true; _] => true | _ => false end.
+
+Definition case_cond (sel : expr) (vals : list expr) : expr := EOr (map (fun v => ECmp Ceq sel v) vals).
+
+Fixpoint sel_chain_from (tag : expr -> expr) (sel : expr) (cases : list (list expr * list stmt)) (dflt : list stmt)
+  : list stmt :=
+  match cases with
+  | [] => dflt
+  | (vals, b) :: r => [SIf (tag (case_cond sel vals)) b (sel_chain_from sel_cont sel r dflt)]
+  end.
+Definition sel_chain (sel : expr) (cases : list (list expr * list stmt)) (dflt : list stmt) : list stmt :=
+  sel_chain_from sel_head sel cases dflt.
+
+(** visit_MultiConditional, literally: uses start with the symbols of the selector and of all case
+    values; every body is visited with fresh defines and the running uses; defines are united *)
+Definition select_du (sg : sigs) (sel : expr) (cases : list (list expr * list stmt)) (dflt : list stmt) : names * names :=
+  let uses0 := evars sel ++ flat_map (fun cb => flat_map evars (fst cb)) cases in
+  let r := fold_left (fun acc cb => let du := du_body sg (snd cb) [] (snd acc) in (fst acc ++ fst du, snd du))
+                     cases ([], uses0) in
+  let du := du_body sg dflt [] (snd r) in
+  (fst r ++ fst du, snd du).
+
+(** nodes of the encoding that are not nodes of Loki's IR (pre-order, Section first) *)
+Definition is_cont_stmt (st : stmt) : bool := match st with SIf c _ _ => is_sel_cont c | _ => false end.
+Fixpoint mask_stmt (st : stmt) : list bool :=
+  is_cont_stmt st ::
+  match st with
+  | SDo _ _ _ _ b | SWhile _ b => flat_map mask_stmt b
+  | SIf _ tb eb => flat_map mask_stmt tb ++ flat_map mask_stmt eb
+  | _ => []
+  end.
+Definition mask_routine (ss : list stmt) : list bool := false :: flat_map mask_stmt ss.
+
+Fixpoint drop_virtual {A} (l : list A) (m : list bool) : list A :=
+  match l, m with
+  | x :: r, b :: q => if b then drop_virtual r q else x :: drop_virtual r q
+  | _, _ => l
+  end.
+
 (** correspondence comparator: Loki's per-node sets (pre-order) vs the model *)
 Definition chk_annot (sg : sigs) (args : list (string * intent)) (ss : list stmt) (out : list ann) : bool :=
-  anns_eqb (annot_routine sg args ss) out.
+  anns_eqb (drop_virtual (annot_routine sg args ss) (mask_routine ss)) out.
 
 (** * Instrumented interpreter *)
 
